@@ -425,6 +425,82 @@ def drv_reject(ctx: Ctx, sub: SubCheck):
     ctx.tally.notes.append("reject: complete over 49 positions x the 8 unemittable points for each chosen block; blocks: " + f"all 64 alternating + {len(blocks) - 64} random")
 
 
+# ---------------------------------------------------------------------------------------------- reuse / scribble-and-repeat
+
+
+def _damage(buf: bitarray, how: str):
+    """in-place damage of a buffer the library handed out (what a caller simulating channel errors would do)"""
+    if how == "invert":
+        buf.invert()
+    elif how == "flip":
+        buf.invert(len(buf) // 3)
+    elif how == "truncate":
+        del buf[150:]
+    elif how == "extend":
+        buf.extend([1, 0, 1, 1])
+    elif how == "zero":
+        buf.setall(0)
+    else:
+        raise HarnessError(f"unknown damage {how}")
+
+
+def oracle_reuse(case):
+    """case = {blocks: [hex36...], seq: [[block index, "bits"|"bytes", damage], ...]}.  A caller encodes blocks, damages the
+    returned streams IN PLACE (channel simulation) and encodes / decodes again, possibly the same block: every encode must
+    still yield the 196 bits that decode to the block (for every block = also for a block that was encoded before), and
+    the result of decode must not depend on what was done to earlier results."""
+    blocks = case["blocks"]
+    first = {}
+    for idx, form, dmg in case["seq"]:
+        blk = blocks[idx]
+        want_bits = bitarray(format(int(blk, 16), "0144b"))
+        arg = want_bits.copy() if form == "bits" else bytes.fromhex(blk)
+        enc = call(T().encode, arg)[1]
+        if not isinstance(enc, bitarray) or len(enc) != 196:
+            raise Fail("encode_yields_196_bits", f"{type(enc).__name__} of length {len(enc)}", "bitarray of 196 bits", "after_caller_modified_an_earlier_result")
+        if blk in first and enc != first[blk]:
+            raise Fail("encode_same_block_same_bits_regardless_of_history", enc.to01(), first[blk].to01())
+        first.setdefault(blk, enc.copy())
+        dec = call(T().decode, enc.copy())[1]
+        if bitarray(dec) != want_bits:
+            raise Fail("decode_returns_block", bitarray(dec).to01(), want_bits.to01(), "after_caller_modified_an_earlier_result")
+        # the caller now owns enc and dec: scribble on them
+        _damage(enc, dmg)
+        if isinstance(dec, bitarray):
+            dec.invert()
+        if isinstance(arg, bitarray):
+            arg.invert()
+
+
+def drv_reuse(ctx: Ctx, sub: SubCheck):
+    from hypothesis import strategies as st
+
+    damages = ["invert", "flip", "truncate", "extend", "zero"]
+    step = st.tuples(st.integers(0, 1), st.sampled_from(["bits", "bytes"]), st.sampled_from(damages)).map(list)
+    strat = st.builds(lambda b0, b1, seq: {"blocks": [b0, b1], "seq": seq}, st_block(), st_block(), st.lists(step, min_size=2, max_size=6))
+
+    def rec(c, tt):
+        idxs = [x[0] for x in c["seq"]]
+        repeat = len(set(idxs)) < len(idxs)
+        tt.case(sub.name, key=c, nontrivial=repeat, cls="same_block_encoded_again" if repeat else "no_repeat")
+
+    # deterministic core: every damage kind x both input forms x (same block again | other block in between)
+    det = []
+    for dmg in damages:
+        for f1 in ("bits", "bytes"):
+            for f2 in ("bits", "bytes"):
+                det.append({"blocks": ["a4" + "00" * 17, "5a" * 18], "seq": [[0, f1, dmg], [0, f2, dmg]]})
+                det.append({"blocks": ["0123456789abcdef0123456789abcdef0123", "ff" * 18], "seq": [[0, f1, dmg], [1, f2, dmg], [0, f2, "invert"], [1, f1, dmg]]})
+    for c in det:
+        ctx.run_case(sub.name, oracle_reuse, c)
+        ctx.tally.case(sub.name, key=c, nontrivial=True, cls="directed")
+
+    def work(shard, t: Tally):
+        ctx.hypothesis(sub.name, strat, oracle_reuse, ctx.pick(60, 800), tally=t, shard=shard, record=rec)
+
+    ctx.shards(work, list(range(16)))
+
+
 SUBCHECKS = [
     SubCheck("dibit_map", oracle_dibit_map, drv_maps, "bit pair <-> dibit value is a bijection on 4 values"),
     SubCheck("point_map", oracle_point_map, lambda ctx, sub: None, "constellation point <-> dibit pair is a bijection on 16 values (driven by dibit_map)"),
@@ -434,5 +510,6 @@ SUBCHECKS = [
     SubCheck("roundtrip_structured", oracle_roundtrip, drv_roundtrip_structured, "alternating, single-tribit, constant and de-Bruijn blocks: 196 bits, decode == block, bits == bytes"),
     SubCheck("roundtrip_random", oracle_roundtrip, drv_roundtrip_random, "Hypothesis blocks: 196 bits, decode == block, bits == bytes"),
     SubCheck("reject", oracle_reject, drv_reject, "every unemittable point at every position of the chosen blocks makes decode raise"),
+    SubCheck("reuse", oracle_reuse, drv_reuse, "histories: encode, caller damages the returned stream in place, encode/decode again (same or other block) - results independent of that"),
 ]
 PREDICATES = {}
